@@ -7,6 +7,7 @@ fns, opaque external types with assume_specification) and whose executable funct
     //@ret <name>                     name the return value:  -> T   becomes   -> (name: T)
     //@spec <verus clause text>       requires/ensures/decreases lines, emitted between signature and body
     //@attr <attribute>               a Verus attribute line placed above the signature (e.g. opting out of termination)
+    //@none_args <Type>               R8: every `&mut None` argument becomes a fresh `Option<Type>` local
     //@loop <k> <clause text>         invariant/decreases lines for the k-th loop (source order, from 0)
     //@subst <old>=><new>             literal replacement in signature+body (each counted, each listed in evidence)
     //@subst_re <regex>=><new>        same with a (DOTALL) regular expression, for multi-line `assert!(.., "fmt", ..)`
@@ -122,6 +123,7 @@ def generate(unit, repo):
         if s.startswith("//@extract "):
             _, src, spec = s.split()
             ret, specs, loops, substs, befores, attrs = None, [], {}, [], [], []
+            none_ty = None
             i += 1
             while not lines[i].strip().startswith("//@end"):
                 d = lines[i].strip()
@@ -131,6 +133,8 @@ def generate(unit, repo):
                     specs.append(d[len("//@spec"):].rstrip())
                 elif d.startswith("//@attr "):
                     attrs.append(d[len("//@attr "):].strip())
+                elif d.startswith("//@none_args "):
+                    none_ty = d[len("//@none_args "):].strip()
                 elif d.startswith("//@loop "):
                     _, k, rest = d.split(None, 2)
                     loops.setdefault(int(k), []).append(rest)
@@ -170,8 +174,9 @@ def generate(unit, repo):
                     found = rx.findall(body) + rx.findall(sig)
                     if not found:
                         raise ValueError("lost anchor: subst_re %r in %s" % (a[3:], spec))
-                    body = rx.sub(lambda _m: b, body)
-                    sig = rx.sub(lambda _m: b, sig)
+                    rep = (lambda _m: _m.expand(b)) if re.search(r"\\[1-9]", b) else (lambda _m: b)
+                    body = rx.sub(rep, body)
+                    sig = rx.sub(rep, sig)
                     info["substs"].append({"fn": spec, "old_regex": a[3:], "new": b, "count": len(found)})
                     continue
                 n = sig.count(a) + body.count(a)
@@ -180,6 +185,18 @@ def generate(unit, repo):
                 sig = sig.replace(a, b)
                 body = body.replace(a, b)
                 info["substs"].append({"fn": spec, "old": a, "new": b, "count": n})
+            if none_ty:
+                # R8: every `&mut None` argument becomes `&mut <fresh local>`, declared at the top of the body
+                # (Verus cannot take `&mut` of a temporary)
+                k = 0
+                while "&mut None" in body:
+                    body = body.replace("&mut None", "&mut none_arg_%d" % k, 1)
+                    k += 1
+                if k:
+                    j = body.index("{") + 1
+                    decl = " ".join("let mut none_arg_%d: Option<%s> = None;" % (n, none_ty) for n in range(k))
+                    body = body[:j] + " " + decl + body[j:]
+                    info["rules"]["R8_mut_none_arg"] = info["rules"].get("R8_mut_none_arg", 0) + k
             for a, b, after in befores:
                 k = body.find(a)
                 if k < 0:
@@ -274,7 +291,10 @@ def run_unit(unit, repo, workdir, logdir, timeout_s=600):
         res["status"], res["why"] = "undecided", "rustc/verus error: " + first_error(err)
         return res
     if real or res["errors"] > 0:
-        msgs = error_blocks(err, info["line_map"], text)
+        msgs = [m for m in error_blocks(err, info["line_map"], text) if not m["fn"].startswith("vacuity_probe")]
+        if msgs and all("rlimit" in m["desc"] or "timed out" in m["desc"] for m in msgs):
+            res["status"], res["why"] = "undecided", "solver resource limit: " + "; ".join(m["desc"][:160] for m in msgs[:2])
+            return res
         if any("rlimit" in m["desc"] or "timed out" in m["desc"] for m in msgs) and not any(
                 "not satisfied" in m["desc"] or "failed" in m["desc"] or "overflow" in m["desc"] for m in msgs):
             res["status"], res["why"] = "undecided", "solver resource limit: " + "; ".join(m["desc"] for m in msgs[:2])
